@@ -89,13 +89,13 @@ func LengthEncodedString(data []byte) ([]byte, int, error) {
 		return nil, n, err
 	}
 
-	n += int(num)
-
-	// Check data length
-	if len(data) >= n {
-		return data[n-int(num) : n], n, nil
+	// the declared length must fit into the rest of the data; compare as unsigned values
+	// so that a 64-bit length cannot wrap around to a negative offset
+	if num > uint64(len(data)-n) {
+		return nil, n, io.EOF
 	}
-	return nil, n, io.EOF
+	n += int(num)
+	return data[n-int(num) : n], n, nil
 }
 
 // SkipLengthEncodedString https://dev.mysql.com/doc/internals/en/string.html#packet-Protocol::LengthEncodedString
@@ -107,13 +107,12 @@ func SkipLengthEncodedString(data []byte) (int, error) {
 	if num < 1 {
 		return n, nil
 	}
-
-	n += int(num)
-
-	if len(data) >= n {
-		return n, nil
+	// compare as unsigned values so that a 64-bit length cannot wrap around
+	if num > uint64(len(data)-n) {
+		return n, io.EOF
 	}
-	return n, io.EOF
+	n += int(num)
+	return n, nil
 }
 
 // PutLengthEncodedInt https://dev.mysql.com/doc/internals/en/integer.html#packet-Protocol::LengthEncodedInteger
